@@ -29,7 +29,7 @@ type c07Case struct {
 }
 
 func genCaseC07(t *rapid.T) *c07Case {
-	mode := rapid.SampledFrom([]string{"valid", "faults", "faults", "defect", "malformed", "badvars"}).Draw(t, "mode")
+	mode := rapid.SampledFrom([]string{"valid", "faults", "faults", "defect", "malformed", "badvars", "dupop"}).Draw(t, "mode")
 	strategy := rapid.SampledFrom([]string{"R", "A", "X"}).Draw(t, "strategy")
 	if mode == "faults" && strategy == "X" {
 		strategy = "R"
@@ -44,6 +44,15 @@ func genCaseC07(t *rapid.T) *c07Case {
 	leaf := LeafFn(GenLeaf)
 	if mode == "faults" {
 		leaf = func(t *rapid.T, s *hx.Schema, base, label string, hint int) hx.Val {
+			if (base == "Float" || base == "Float64") && hint >= 0 && rapid.IntRange(0, 5).Draw(t, label+"nonFinite") == 0 {
+				// members of float lists that no JSON text can hold, in the Go kind the scalar itself
+				// uses (a typed slice of them needs no conversion - but still the finiteness check)
+				k := "float64"
+				if base == "Float" {
+					k = "float32"
+				}
+				return hx.Val{K: k, S: rapid.SampledFrom([]string{"NaN", "+Inf", "-Inf"}).Draw(t, label+"nf")}
+			}
 			if rapid.IntRange(0, 5).Draw(t, label+"hz") == 0 {
 				v := hostileLeaf(t, s, base, label, hint)
 				if td := s.Type(base); td != nil && td.Kind == hx.KEnum && (v.K == "string" || v.K == "symbol") && !td.HasValue(v.S) {
@@ -142,6 +151,22 @@ func genCaseC07(t *rapid.T) *c07Case {
 		if cc.Mutated == "" {
 			cc.Mutated = " "
 		}
+	case "dupop":
+		// two operations with one name: refused before anything is executed, the error is about an
+		// operation (whose header may end its line)
+		if len(d.Ops) >= 2 {
+			d.Ops[1].Name = d.Ops[0].Name
+			d.Ops[1].Anon = false
+			d.Ops[0].Anon = false
+		} else {
+			cp := *d.Ops[0]
+			cp.Anon, d.Ops[0].Anon = false, false
+			d.Ops = append(d.Ops, &cp)
+			if len(d.Order) > 0 {
+				d.Order = append(d.Order, fmt.Sprintf("o%d", len(d.Ops)-1))
+			}
+		}
+		c.Layout.HeaderNL = rapid.Bool().Draw(t, "headerEndsItsLine")
 	case "badvars":
 		// wrong kinds for declared variables
 		for i := range c.Vars {
@@ -258,6 +283,28 @@ func envelope(res map[string]interface{}, text string) (msgs []string) {
 				if !lok || !cok {
 					bad("errors[%d] location %#v is not a pair of ints", i, lm)
 					continue
+				}
+				// an error about a named operation lies on a line that carries the operation's header
+				// (keyword and name); asserted before anything else so that the recorded lookahead
+				// finding does not cover it
+				if msg, _ := em["message"].(string); strings.Contains(msg, "duplicate '") && strings.HasSuffix(msg, "' operation") {
+					name := msg[strings.Index(msg, "duplicate '")+len("duplicate '") : len(msg)-len("' operation")]
+					onHeader, headers := false, 0
+					for li, ln := range lines {
+						for _, kw := range []string{"query ", "mutation ", "subscription "} {
+							if k := strings.Index(ln, kw+name); k >= 0 && name != "" && !strings.Contains(ln[:k], "#") {
+								rest := ln[k+len(kw+name):]
+								if rest == "" || strings.ContainsAny(rest[:1], " ({@\r\t,") {
+									headers++
+									onHeader = onHeader || li+1 == line
+								}
+							}
+						}
+					}
+					if headers > 0 && !onHeader {
+						bad("errors[%d] location line %d is not a line with the header of operation %s (message %q)", i, line, name, msg)
+						continue
+					}
 				}
 				if line < 1 || col < 1 {
 					tag := ""
